@@ -50,6 +50,31 @@ CLAIMED["C11"] = {
     "design_ref": "DESIGN.md §5 C11",
 }
 
+CLAIMED["C07"] = {
+    "text": "Decides the sharing structure closures rest on: (b) variable cells (Gc<GcCell<..>>) are created only in PrimitiveFlagsPair::new / the "
+            "static built-in module, and PrimitiveFlagsPair::new is called only from the declaration sites (register_variable_local, "
+            "export_special); make_function stores under each captured name exactly the cell returned by load_variable / "
+            "load_callback_variable (PrimitiveFlagsPair::clone is a Gc pointer copy; the lookup helpers hand out the stored cell); (c) "
+            "VariableMapping::update and the found-branch of Stack::register_variable_flags write through set_primitive on the found cell and never "
+            "insert or re-declare; store_object (modify) reaches update_callback_variable, which updates the closure's own capture map; plain "
+            "store never touches it; (d) Stack::extend starts every activation with VariableMapping::default() and Function::run pushes the frame "
+            "before any handler runs; (a) visitor completeness of the capture walk (every code-bearing AST field is visited by dependencies()). "
+            "Does not decide run-time histories.",
+    "technique": "static analysis: type-resolved who-may-create/who-may-call, value-origin slicing (pass-through), dominators on rustc MIR; visitor completeness over ADT fields",
+    "design_ref": "DESIGN.md §5 C07",
+}
+CLAIMED["C08"] = {
+    "text": "Decides structural necessary conditions only (per-instance state/aliasing over histories is not decided): (1) the identity token "
+            "Gc<DebugPrintableLock> is created only in ObjectBuilder::build / Object::new from Default, feeds the object's debug_lock, and make_object "
+            "reaches build on every Ok path and pushes the built object; (2) the object's variables derive from Ctx::get_frame_variables through "
+            "VariableMapping::clone only (cells shared with the methods' captures; no fresh cell is created while an object is assembled); (3) "
+            "Object::has_variable/get_property return the stored cell, lookup wraps exactly that cell in HeapPrimitive::Lookup, and HeapPrimitive::set "
+            "writes the new value into it through set_primitive; (4) the (Object,Object) arm of runtime_addr_check is id_addr(self) == id_addr(rhs), "
+            "id_addr is the address behind debug_lock, and cloning an object copies the identity pointer.",
+    "technique": "static analysis: type-resolved who-may-create, value-origin slicing (pass-through), CFG region rules on rustc MIR",
+    "design_ref": "DESIGN.md §5 C08",
+}
+
 NOT_APPLICABLE = {
     "C01": "observable is program output; mechanism is relative jump offsets computed from Vec::len() arithmetic of recursively compiled blocks - deciding it needs symbolic execution of the generators (a different family); see DESIGN.md §5 C01",
     "C09": "a property of the compiler's *output* for all programs (jump targets, frame balance, operand-stack shape): needs symbolic block lengths or a verifier over emitted bytecode (translation validation), not an analysis of /repo's source; DESIGN.md §5 C09",
